@@ -42,16 +42,17 @@ def _aliases(f):
     return local_aliases(f, allow=lambda v: isinstance(v, (ast.Attribute, ast.Call)))
 
 
-def _cmp_edges(g, al, terms, c):
-    """test edges on which  sum(coef*term) >= c  is known (after alias substitution)."""
-    want = (frozenset((k, v) for k, v in terms.items() if v), c)
+def _cmp_edges(g, al, terms, c, at_least=False):
+    """test edges on which  sum(coef*term) >= c  is known (after alias substitution).  With at_least the
+    edge may establish a stronger fact (>= c' with c' >= c); without, the boundary must be exactly c (K12)."""
+    wt = frozenset((k, v) for k, v in terms.items() if v)
     out = []
     for t in g.ids(lambda n: n.kind == "test"):
         e = g.node(t).ast
-        if lincmp_c(e, al) == want:
-            out.append((t, "T"))
-        if lincmp_c(e, al, negate=True) == want:
-            out.append((t, "F"))
+        for lab, neg in (("T", False), ("F", True)):
+            nf = lincmp_c(e, al, negate=neg)
+            if nf is not None and nf[0] == wt and (nf[1] == c or (at_least and nf[1] >= c)):
+                out.append((t, lab))
     return out
 
 
@@ -180,9 +181,12 @@ def check(ctx):
     loops = [n for n in g.ids(lambda n: n.kind == "for") if any(edge_path(g, [n], [s], strict=True) for s in sends)]
     ctx.need(loops, "write: for-loop around sendData")
     loop = loops[0]
-    it = canon(g.node(loop).ast.iter, al)
+    it = g.node(loop).ast.iter
+    if isinstance(it, ast.Name) and it.id in al:
+        it = al[it.id]
     need(ctx, isinstance(it, ast.Call) and dotted(it.func) == "range" and len(it.args) == 3 and const_is(it.args[0], 0), f"write: range(0, bound, step), got {src(it)}")
-    bound, step = it.args[1], it.args[2]
+    bound, step = it.args[1], canon(it.args[2], al)
+    al = {k: v for k, v in al.items() if not (isinstance(bound, ast.Name) and k == bound.id)}   # the bound stays symbolic
     lv = g.node(loop).ast.target
     need(ctx, isinstance(lv, ast.Name), "write: loop variable")
     ctx.check(src(step) == RMP, "packet-size/piece-width", ctx.construct(q, g.node(loop).ast) + " | step",
@@ -202,7 +206,7 @@ def check(ctx):
     # window clamp on the loop bound
     if isinstance(bound, ast.Name):
         B = bound.id
-        est_edges = _cmp_edges(g, al, {WIN: 1, B: -1}, 0)
+        est_edges = _cmp_edges(g, al, {WIN: 1, B: -1}, 0, at_least=True)
         est_nodes = stmts(g, lambda st: isinstance(st, ast.Assign) and any(isinstance(t, ast.Name) and t.id == B and v is not None and csrc(v, al) == WIN
                                                                             for t, v in assigned_pairs(st)))
         kills = [n for n in def_nodes(g, B) if n not in est_nodes]
@@ -222,7 +226,8 @@ def check(ctx):
     decs = _win_decrements(g, al)
     dn = [n for n, a in decs]
     for n, a in decs:
-        ctx.check(a is not None and csrc(a, al) == src(bound), "window/decrement-matches-sent", ctx.construct(q, g.node(n).ast),
+        # after the (checked) truncation len(data) == bound on every path, so either spelling is exact
+        ctx.check(a is not None and csrc(a, al) in (src(bound), f"len({dparam})"), "window/decrement-matches-sent", ctx.construct(q, g.node(n).ast),
                   f"remoteWindowLeft is reduced by {csrc(a, al) if a is not None else '?'} but {src(bound)} bytes were handed to sendData")
         w = g.must_precede([loop], [n], exc=False)
         ctx.check(w is None, "window/decrement-matches-sent", ctx.construct(q, g.node(n).ast) + " | only when sending",
@@ -280,7 +285,7 @@ def check(ctx):
                   "data is merged into a buffered entry of a different extended-data type")
 
     # clamp
-    est_edges = _cmp_edges(g, al, {WIN: 1, f"len({dparam})": -1}, 0)
+    est_edges = _cmp_edges(g, al, {WIN: 1, f"len({dparam})": -1}, 0, at_least=True)
     overflow = [d for t, lab in est_edges for d in succ_on(g, t, _other(lab))]
     tn = _check_split(ctx, g, al, q, dparam, "extBuf", overflow, sends, "writeExtended()")
     # the rest must be buffered under the same type
@@ -305,7 +310,7 @@ def check(ctx):
     # packet size + coupled decrement per send
     decs = _win_decrements(g, al)
     dn = [n for n, a in decs]
-    size_edges = _cmp_edges(g, al, {RMP: 1, f"len({dparam})": -1}, 0)
+    size_edges = _cmp_edges(g, al, {RMP: 1, f"len({dparam})": -1}, 0, at_least=True)
     for s in sends:
         c = calls_at(g, s, lambda c: is_send(c, "sendExtendedData"))[0]
         okargs = len(c.args) == 3 and src(c.args[0]) == "self" and src(c.args[1]) == tparam
@@ -318,7 +323,7 @@ def check(ctx):
         if sp and isinstance(sp[0], ast.Name) and sp[0].id == dparam and sp[1] is None and sp[2] is not None:
             ctx.check(csrc(sp[2], al) == RMP, "packet-size/piece-width", ctx.construct(q, c),
                       f"a piece of {csrc(sp[2], al)} bytes is sent; the peer accepts at most remoteMaxPacket")
-            big = _cmp_edges(g, al, {f"len({dparam})": 1, csrc(sp[2], al): -1}, 1) + _cmp_edges(g, al, {f"len({dparam})": 1, csrc(sp[2], al): -1}, 0)
+            big = _cmp_edges(g, al, {f"len({dparam})": 1, csrc(sp[2], al): -1}, 0, at_least=True)
             ctx.check(guarded_by_edges(g, s, big), "window/decrement-matches-sent", ctx.construct(q, c) + " | full piece",
                       "a prefix piece is sent without knowing that the data is at least that long (the window is charged for more than was sent)")
             expect = csrc(sp[2], al)
@@ -664,5 +669,7 @@ SILENT = [
            "        limit = self.remoteMaxPacket\n        while limit < len(data):\n            self.conn.sendExtendedData(self, dataType, data[:limit])\n            self.remoteWindowLeft = self.remoteWindowLeft - limit\n            data = data[limit:]\n"),
     Silent("receiver-early-returns", CO, "        if dataLength > channel.localWindowLeft or dataLength > channel.localMaxPacket:\n            self._log.error(\"too much extdata\")\n            self.sendClose(channel)\n            return\n",
            "        if channel.localWindowLeft < dataLength:\n            self._log.error(\"too much extdata\")\n            self.sendClose(channel)\n            return\n        if not dataLength <= channel.localMaxPacket:\n            self._log.error(\"too much extdata\")\n            self.sendClose(channel)\n            return\n"),
+    Silent("overflow-branch-at-equality", CH, "        if top > self.remoteWindowLeft:\n            data, self.buf = (", "        if top >= self.remoteWindowLeft:\n            data, self.buf = ("),
+    Silent("decrement-by-len-of-truncated-data", CH, "        self.remoteWindowLeft -= top\n", "        self.remoteWindowLeft -= len(data)\n"),
     Silent("addWindowBytes-augassign", CH, "        self.remoteWindowLeft = self.remoteWindowLeft + data\n", "        self.remoteWindowLeft += data\n"),
 ]
